@@ -726,7 +726,7 @@ class Unit:
 
     def __init__(self, file, name, cls=None, cname=None, sig=None, nth=0, bind=None, method=None,
                  selftype=None, pre=(), post=(), ret=None, params=None, extra_members=(), refs_keep=(),
-                 maythrow=False, scalar_types=(), static=False, drop_const_self=False, block=None, objs=None, retval=None, witness=(), strs=(), base_init_ok=(), enums=(), stub_siblings=None, rename=None, helpers=False):
+                 maythrow=False, scalar_types=(), static=False, drop_const_self=False, block=None, objs=None, retval=None, witness=(), strs=(), base_init_ok=(), enums=(), stub_siblings=None, rename=None, helpers=False, optional=False):
         self.file = file
         self.name = name
         self.cls = cls
@@ -745,6 +745,7 @@ class Unit:
         self.maythrow = maythrow
         self.scalar_types = scalar_types
         self.helpers = helpers
+        self.optional = optional   # a helper the unit under proof may or may not use: skipped when the function does not exist
         self.block = block
         self.objs = objs or {}
         self.retval = retval
